@@ -1,6 +1,7 @@
 (* C05 — stream operations terminate; no deadlock, panic or leaked goroutine (in-process core). *)
 From Coq Require Import ZArith List Bool Lia.
 From Grpchan Require Import gen.Inproc model.Chan1 proofs.Chan1.
+From Grpchan Require model.InprocStream proofs.StreamInv.
 Import ListNotations.
 Close Scope Z_scope.
 
@@ -27,3 +28,20 @@ Proof.
   - right. left. cbn. destruct (q s); [contradiction|discriminate].
   - right. right. cbn. rewrite H1, H2. discriminate.
 Qed.
+
+(* The same for the COMPLETE in-process stream (model/InprocStream.v: both directions, the header,
+   trailer and error frames of the returning handler, the client's receive states, cancellation and
+   deadline): in every state reachable by any operation starts of the four actors, at any time, and
+   any order of internal steps, no send on or close of a closed channel has happened, provided the
+   handler returns once.  This is the model the STREAM/C05 schedules are checked against. *)
+Theorem C05_full_stream_no_panic : forall rs s,
+  StreamInv.reachable rs s -> InprocStream.panicked s = false.
+Proof. exact StreamInv.reachable_never_panics. Qed.
+Print Assumptions C05_full_stream_no_panic.
+
+(* the response channel is closed by nobody but the returning handler *)
+Theorem C05_full_stream_close_once : forall rs s,
+  StreamInv.reachable rs s -> InprocStream.respClosed s = true ->
+  InprocStream.svrDone s = true /\ InprocStream.sState s = 2%Z.
+Proof. exact StreamInv.reachable_resp_closed_only_after_return. Qed.
+Print Assumptions C05_full_stream_close_once.
